@@ -334,6 +334,7 @@ def generic_store_check(rep, tier, seed, prop, allow, extras_fn, want, nhist, co
     rep.cov["evaluations"] += len(all_lines)
     rep.cov["traces_validated_against_impl"] += len(hists)
     nv = 0
+    ncorr = 0
 
     def problems(h, meta, lines, tags, i2, m2, d2):
         """all problems of one history: known-finding hits first-class, at most one unknown"""
@@ -399,9 +400,17 @@ def generic_store_check(rep, tier, seed, prop, allow, extras_fn, want, nhist, co
         prob = unknown(ps)
         if prob is None:
             continue
-        nv += 1
-        if nv > 3:
-            continue
+        # a disagreement between model and code on an internal observable must not use up the reports: the histories
+        # that follow are still searched for an input on which the property itself fails (at most 3 of those and 2
+        # correspondence-only disagreements are minimised and reported)
+        if prob[0] == "oracle":
+            nv += 1
+            if nv > 3:
+                continue
+        else:
+            ncorr += 1
+            if ncorr > 2:
+                continue
         kind = prob[0]
         small = minimise(h, meta, lambda ops: (lambda q: q is not None and q[0] == kind)(unknown(rerun(h, meta, ops)[5])))
         h3, l3, t3, i3, m3, ps3 = rerun(h, meta, small)
@@ -479,9 +488,25 @@ def run_c05(rep, tier, seed):
                 return gets(meta)
             return []
         return f
-    generic_store_check(rep, tier, seed, "C05", {"put", "del", "get", "merge", "reopen"}, extras, {"map", "restart"}, n)
+    def tails(rng, h):
+        # restart cycles after a merge with writes in between: what a merge leaves behind (empty output files, hint
+        # files, the id it gave the new active file) must not confuse the restarts that follow
+        if rng.random() < 0.5:
+            keys = sorted({op[1] for op in h.ops if op[0] in ("put", "del", "get")}) or [KEYS[0]]
+            tail = [("merge",), ("reopen",)]
+            for _ in range(rng.randint(1, 2)):
+                for _ in range(rng.randint(0, 3)):
+                    k = rng.choice(keys)
+                    if rng.random() < 0.7:
+                        v, tok = gen_val(rng, 60)
+                        tail.append(("put", k, v, tok))
+                    else:
+                        tail.append(("del", k))
+                tail.append(("reopen",))
+            h.ops = h.ops + tail
+    generic_store_check(rep, tier, seed, "C05", {"put", "del", "get", "merge", "reopen"}, extras, {"map", "restart"}, n, mutate_hist=tails)
     rep.cov["rule"] = ("histories with merges under all threshold presets (selected sets include ones that exclude an older file holding an overwritten/deleted value); "
-                       "after each merge every key is read and a copy of the directory is opened (= restart right after the merge); after reopen every key is read; "
+                       "after each merge every key is read and a copy of the directory is opened (= restart right after the merge); after reopen every key is read; half of the histories end with merge, restart, 0-3 writes, restart (, 0-3 writes, restart); "
                        "compared with the Lean model and a plain map; non-trivial = distinct history with >=3 ops")
 
 
